@@ -37,6 +37,27 @@ type zvConn struct {
 	out      []byte
 	writesAfterClose int
 	local, remote net.Addr
+	// stallWrites models a full send buffer: Write blocks (a visible, blocking scheduler operation) until the
+	// harness clears the flag or the connection is closed
+	stallWrites bool
+}
+
+// zvConnWriter is the blocking-write operation of a stalled connection.
+type zvConnWriter struct{ c *zvConn }
+
+//go:norace
+func (w zvConnWriter) OpEnabled(int) bool { return !w.c.stallWrites || w.c.closed }
+
+//go:norace
+func (w zvConnWriter) OpApply(int) {}
+
+//go:norace
+func (c *zvConn) stalled() bool { return c.stallWrites }
+
+func (c *zvConn) setStall(v bool) {
+	c.mu.Lock()
+	c.stallWrites = v
+	c.mu.Unlock()
 }
 
 func (c *zvConn) Read(p []byte) (int, error) {
@@ -69,6 +90,9 @@ func (c *zvConn) OpEnabled(int) bool {
 func (c *zvConn) OpApply(int) {}
 
 func (c *zvConn) Write(p []byte) (int, error) {
+	if c.stalled() {
+		vsched.DoObj(vsched.KIO, fmt.Sprintf("conn%d.Write(stalled)", c.id), zvConnWriter{c})
+	}
 	c.mu.Lock()
 	defer c.mu.Unlock()
 	if c.closed {
